@@ -29,3 +29,38 @@ def load_alg(extra=None):
         ns.update(extra)
     src.load_module(ALG, ns)
     return Mod(ns, ALG)
+
+
+class FnStub:
+    """an abstract (deterministic) vector-valued function: prox(alpha, v), gradf(x), A-as-function ...
+    Every distinct argument gets a fresh base vector; an argument seen before (same scalar terms, same
+    coefficients) gets the same value again.  `table` pre-loads argument -> value pairs (scenario hypotheses such as
+    'x* is a fixed point of the prox step')."""
+
+    def __init__(self, space, name, out_space=0):
+        self.space, self.name, self.out_space = space, name, out_space
+        self.calls = []          # (scalars, argument copy, result copy)
+        self.memo = {}
+
+    @staticmethod
+    def _key(scalars, v):
+        import z3 as _z
+        ks = tuple(str(_z.simplify(core._lift(s))) for s in scalars)
+        kv = tuple(sorted((str(a), str(_z.simplify(c))) for a, c in v.d.items()))
+        return ks, kv
+
+    def preset(self, scalars, arg, value):
+        self.memo[self._key(scalars, arg)] = value.copy()
+
+    def __call__(self, *args):
+        *scalars, v = args
+        if not isinstance(v, gram.GVec):
+            raise core.Unsupported("%s called with %r" % (self.name, type(v)))
+        k = self._key(scalars, v)
+        if k in self.memo:
+            res = self.memo[k].copy()
+        else:
+            res = self.space.base("%s%d" % (self.name, len(self.memo)), self.out_space)
+            self.memo[k] = res.copy()
+        self.calls.append((tuple(scalars), v.copy(), res.copy()))
+        return res
